@@ -33,6 +33,7 @@ fn main() {
         "C21" => c21::run(seed, n, replay, &mut out),
         "C15" | "statedb" => c15::run(seed, n, replay, &mut out),
         "C19" | "prestate" => c19::run(seed, n, replay, &mut out),
+        "C10" | "static" => c10::run(seed, n, replay, &mut out),
         "bundle" => bundle::run(seed, n, replay, &mut out),
         "util" => cutil::run(seed, n, replay, &mut out),
         "C31" => c31::run(seed, n, replay, &mut out),
